@@ -180,6 +180,13 @@ def check_parser(W, rec, rng, hook):
         parts = []
         body = payload(rng, rng.choice([5, (mem or 64) + 1, 4000]))  # no delimiter at all
         special = "no-delimiter"
+    elif kindsel < 0.9:
+        # undelimited input *behind* the closing delimiter (a client that pads its request, a stream that goes on)
+        parts = [("field", b"n%d" % i, payload(rng, 3)) for i in range(rng.choice([0, 1, 2]))]
+        trailer = rng.choice([5, (mem or 64) + 1, (mem or 64) + 80, 5000])
+        body = mkbody(parts) + payload(rng, trailer)
+        special = "big-epilogue"
+        big_header = trailer  # (recorded in the case)
     elif kindsel < 0.93:
         parts = [("field", b"n0", (rng.choice([b"\r", b"\n", b"\r\n"]) * rng.choice([3, (mem or 64), 2000])))]
         body = mkbody(parts)
@@ -247,6 +254,10 @@ def check_parser(W, rec, rng, hook):
         if special == "huge-header" and mem is not None and big_header > mem + 64:
             rec.violation("C10/E1-undelimited-input-accepted", f"a header block of more than {big_header} bytes was buffered and accepted, mem {mem}; {case}", case, monitor="E1")
             return
+        if special == "big-epilogue" and mem is not None and big_header > mem + 64 and bufsize < big_header // 2 and k < big_header // 2:
+            # (arriving in pieces: the decoder keeps what follows the closing delimiter until the stream ends)
+            rec.violation("C10/E1-undelimited-input-accepted", f"{big_header} bytes behind the closing delimiter were buffered and accepted, mem {mem}; {case}", case, monitor="E1")
+            return
         if special == "no-delimiter" and mem is not None and len(body) > mem + 64:
             rec.violation("C10/E1-undelimited-input-accepted", f"{len(body)} undelimited bytes, mem {mem}; {case}", case, monitor="E1")
             return
@@ -254,7 +265,7 @@ def check_parser(W, rec, rng, hook):
             rec.violation("C10/E3-limits-changed-the-result", f"with limits {r!r} without {base!r}; {case}", case, monitor="E3")
             return
     # completeness in the regime where nothing is near a limit: generous limits must not reject
-    if r[0] == "413" and base[0] == "ok" and not bigfield and not toomany:
+    if r[0] == "413" and base[0] == "ok" and not bigfield and not toomany and special != "big-epilogue":
         total_hdr = 80 + big_header
         generous = (mem is None or (mem >= max(field_sizes + [0]) and mem >= total_hdr + bufsize + 16 and bufsize <= mem)) and (pl is None or pl >= nparts)
         if generous and all(a == "field" or mem is None or True for a, n, d in parts):
